@@ -309,4 +309,628 @@ theorem abs_wordJoin (p : P) (h : SLa p.abs) (ws : List Word) (hne : ∀ w ∈ w
   rw [← e1]
   exact r2 hws
 
+/-! ## Abstract-state algebra -/
+
+def Abs.pad (a : Abs) : Abs := if a.ws = .required then { a with out := a.out ++ [32], ws := .written } else a
+
+theorem abs_spacePad_eq (p : P) : p.spacePad.abs = p.abs.pad := abs_spacePad p
+
+theorem Abs.pad_wrote (a : Abs) (bs : Bytes) : a.pad.wrote bs = a.wrote (leadA a ++ bs) := by
+  unfold Abs.pad leadA Abs.wrote
+  split <;> simp
+
+theorem Abs.wrote_wrote (a : Abs) (x y : Bytes) : (a.wrote x).wrote y = a.wrote (x ++ y) := by
+  simp [Abs.wrote, List.append_assoc]
+
+theorem Abs.wrote_nil {a : Abs} (h : a.ws = .required) : a.wrote [] = a := by
+  obtain ⟨out, ws, o, must, first, pan, incs⟩ := a
+  simp only at h
+  subst h
+  simp [Abs.wrote]
+
+theorem Abs.lead_wrote (a : Abs) (bs : Bytes) : leadA (a.wrote bs) = [32] := by simp [leadA, Abs.wrote]
+
+theorem Abs.pad_of_ne {a : Abs} (h : a.ws ≠ .required) : a.pad = a := by
+  unfold Abs.pad; rw [if_neg h]
+
+theorem leadA_of_ne {a : Abs} (h : a.ws ≠ .required) : leadA a = [] := by
+  unfold leadA; rw [if_neg h]
+
+theorem leadA_of_req {a : Abs} (h : a.ws = .required) : leadA a = [32] := by
+  unfold leadA; rw [if_pos h]
+
+/-- the abstract state with another `incs` -/
+theorem Abs.wrote_incs (a : Abs) (bs : Bytes) (n : Nat) :
+    ({ a with incs := n } : Abs).wrote bs = { (a.wrote bs) with incs := n } := rfl
+
+/-! ## Printer segments under SingleLine -/
+
+theorem abs_stmtPre (p : P) (neg : Bool) :
+    (p.stmtPre neg).abs = (if neg then p.abs.wrote (leadA p.abs ++ [33]) else p.abs) := by
+  unfold P.stmtPre
+  dsimp only
+  cases neg with
+  | false => rfl
+  | true =>
+    simp only [↓reduceIte]
+    unfold P.spacedString
+    have h1 : ({ ((P.spacePad { p with wroteSemi := false }).tok [33]) with wantSpace := .required } : P).abs =
+        (P.spacePad { p with wroteSemi := false }).abs.wrote [33] := by
+      simp [P.abs, outB, P.tok, render_snoc, Piece.bytes, Abs.wrote]
+    rw [h1, abs_spacePad_eq, Abs.pad_wrote]
+    rfl
+
+theorem stmtPre_wsemi (p : P) (neg : Bool) : (p.stmtPre neg).wroteSemi = false := by
+  unfold P.stmtPre
+  dsimp only
+  split
+  · unfold P.spacedString P.spacePad
+    split <;> rfl
+  · rfl
+
+theorem abs_stmtEnd (p : P) (h : SLa p.abs) (hws : p.abs.ws = .required) (semi : Pos) (bg : Bool) :
+    (p.stmtEnd semi bg).abs = p.abs.wrote (if bg then [32, 38] else []) ∧ (p.stmtEnd semi bg).wroteSemi = bg := by
+  have h3 : p.o.singleLine = true := h.sl
+  have h4 : p.o.minify = false := h.mn
+  have hi := abs_incLevel p
+  have hio : p.incLevel.o = p.o := congrArg Abs.o hi
+  have hsl' : p.incLevel.o.singleLine = true := by rw [hio]; exact h3
+  have hmin' : p.incLevel.o.minify = false := by rw [hio]; exact h4
+  unfold P.stmtEnd
+  dsimp only
+  simp only [hsl', hmin', Bool.not_true, Bool.and_false, Bool.false_or, Bool.not_false, Bool.false_eq_true, ↓reduceIte]
+  cases bg with
+  | true =>
+    simp only [↓reduceIte]
+    have hs : p.incLevel.space.abs = { p.incLevel.abs with out := p.incLevel.abs.out ++ [32], ws := .written } := by
+      simp [P.space, P.abs, outB, P.gapw, render_snoc, Piece.bytes]
+    have h1 : ({ (p.incLevel.space.tok [38]) with wroteSemi := true, wantSpace := .required } : P).abs =
+        { (p.abs.wrote [32, 38]) with incs := p.abs.incs + 1 } := by
+      have : ({ (p.incLevel.space.tok [38]) with wroteSemi := true, wantSpace := .required } : P).abs =
+          p.incLevel.space.abs.wrote [38] := by
+        simp [P.abs, outB, P.tok, render_snoc, Piece.bytes, Abs.wrote]
+      rw [this, hs, hi]
+      simp [Abs.wrote, List.append_assoc]
+    constructor
+    · rw [abs_decLevel _ p.abs.incs (by rw [h1]), h1]
+      rfl
+    · unfold P.decLevel
+      split <;> rfl
+  | false =>
+    simp only [Bool.false_eq_true, ↓reduceIte]
+    have h1 : ({ p.incLevel with wroteSemi := false } : P).abs = { p.abs with incs := p.abs.incs + 1 } := hi
+    constructor
+    · rw [abs_decLevel _ p.abs.incs (by rw [h1]), h1, Abs.wrote_nil hws]
+    · unfold P.decLevel
+      split <;> rfl
+
+theorem abs_binaryOp (p : P) (h : SLa p.abs) (opPos : Pos) (op : BinOp) (yl : Nat) (yb : Bool) :
+    (p.binaryOp opPos op yl yb).1.abs = p.abs.wrote (leadA p.abs ++ op.str) ∧
+      (p.binaryOp opPos op yl yb).2 = (false, false) := by
+  have h3 : p.o.singleLine = true := h.sl
+  have h4 : p.o.minify = false := h.mn
+  have hc : (p.o.minify || p.o.singleLine || decide (yl ≤ p.line)) = true := by simp [h3]
+  have hst : p.spacedToken op.str = { (p.spacePad.tok op.str) with wantSpace := .required } := by
+    unfold P.spacedToken
+    rw [if_neg (by simp [h4])]
+  unfold P.binaryOp
+  rw [if_pos hc]
+  refine ⟨?_, rfl⟩
+  show ((p.spacedToken op.str).advanceLine yl).abs = _
+  rw [hst]
+  have h1 : (P.advanceLine ({ (p.spacePad.tok op.str) with wantSpace := .required } : P) yl).abs = p.spacePad.abs.wrote op.str := by
+    simp [P.abs, outB, P.tok, P.advanceLine, render_snoc, Piece.bytes, Abs.wrote]
+  rw [h1, abs_spacePad_eq, Abs.pad_wrote]
+
+theorem abs_subshellOpen (p : P) (h : SLa p.abs) (lp : Pos) (s : Stmt) (rest : Stmts) :
+    (p.subshellOpen lp (.cons s rest)).abs =
+      { p.abs with out := p.abs.out ++ 40 :: (if s.startsWithLparen then [32] else []),
+                   ws := if s.startsWithLparen then .written else .notRequired } := by
+  have h3 : p.o.singleLine = true := h.sl
+  unfold P.subshellOpen
+  dsimp only
+  rw [abs_spacePad_eq]
+  cases hs : s.startsWithLparen with
+  | false =>
+    simp only [Bool.false_eq_true, ↓reduceIte]
+    have : ({ (p.tok [40]) with wantSpace := .notRequired } : P).abs =
+        { p.abs with out := p.abs.out ++ [40], ws := .notRequired } := by
+      simp [P.abs, outB, P.tok, render_snoc, Piece.bytes]
+    rw [this, Abs.pad_of_ne (by simp)]
+  | true =>
+    simp only [↓reduceIte]
+    have hreq : ({ (p.tok [40]) with wantSpace := .required } : P).abs.pad =
+        { p.abs with out := p.abs.out ++ [40, 32], ws := .written } := by
+      simp [Abs.pad, P.abs, outB, P.tok, render_snoc, Piece.bytes, List.append_assoc]
+    split
+    · rename_i hc
+      exfalso
+      simp at hc
+      have h5 : (p.tok [40]).o.singleLine = true := h3
+      rw [h5] at hc
+      exact absurd hc.2 (by simp)
+    · rw [hreq]
+
+theorem abs_closingParenSpace (p : P) (h : SLa p.abs) (ss : Stmts) (a b : Nat) :
+    (p.closingParenSpace ss a b).abs =
+      { p.abs with out := p.abs.out ++ (match ss with
+                      | .cons s .nil => if s.endsWithRparen then ([32] : Bytes) else []
+                      | _ => ([] : Bytes)),
+                   ws := (match ss with
+                      | .cons s .nil => if s.endsWithRparen then WS.written else .notRequired
+                      | _ => .notRequired) } := by
+  have h3 : p.o.singleLine = true := h.sl
+  unfold P.closingParenSpace
+  dsimp only
+  rw [abs_spacePad_eq]
+  have hreq : ({ p with wantSpace := .required } : P).abs.pad = { p.abs with out := p.abs.out ++ [32], ws := .written } := by
+    simp [Abs.pad, P.abs, outB]
+  have hnr : ({ p with wantSpace := .notRequired } : P).abs.pad = { p.abs with ws := .notRequired } := by
+    simp [Abs.pad, P.abs, outB]
+  cases ss with
+  | nil =>
+    simp only [Bool.false_and, Bool.false_eq_true, ↓reduceIte]
+    rw [hnr]; simp
+  | cons s r =>
+    cases r with
+    | nil =>
+      simp only [h3, Bool.true_or, Bool.and_true]
+      cases hs : s.endsWithRparen with
+      | true =>
+        simp only [↓reduceIte]
+        exact hreq
+      | false =>
+        simp only [Bool.false_eq_true, ↓reduceIte]
+        rw [hnr]; simp
+    | cons s2 r2 =>
+      simp only [Bool.false_and, Bool.false_eq_true, ↓reduceIte]
+      rw [hnr]; simp
+
+theorem abs_rightParen (p : P) (h : SLa p.abs) (l : Nat) : (p.rightParen l).abs = p.abs.wrote [41] := by
+  have h4 : p.o.minify = false := h.mn
+  unfold P.rightParen
+  simp only [h4, Bool.not_false, ↓reduceIte, h.newlines]
+  simp [P.abs, outB, P.tok, render_snoc, Piece.bytes, Abs.wrote]
+
+theorem abs_semiRsrv (p : P) (h : SLa p.abs) (hws : p.abs.ws = .required) (l : Nat) :
+    (p.semiRsrv [125] l).abs = p.abs.wrote ((if p.wroteSemi then [] else [59]) ++ [32, 125]) := by
+  have h4 : p.o.minify = false := h.mn
+  have hws' : p.wantSpace = .required := hws
+  unfold P.semiRsrv
+  simp only [h.wantsNewline, Bool.false_eq_true, ↓reduceIte]
+  cases hsemi : p.wroteSemi with
+  | true =>
+    simp only [Bool.not_true, Bool.false_eq_true, ↓reduceIte, h4, Bool.not_false]
+    have : ({ (p.spacePad.tok [125]) with wantSpace := .required } : P).abs = p.spacePad.abs.wrote [125] := by
+      simp [P.abs, outB, P.tok, render_snoc, Piece.bytes, Abs.wrote]
+    rw [this, abs_spacePad_eq, Abs.pad_wrote, leadA_of_req hws]
+    simp
+  | false =>
+    simp only [Bool.not_false, ↓reduceIte]
+    have ho : (P.tok p [59]).o = p.o := rfl
+    simp only [ho, h4, Bool.not_false, ↓reduceIte]
+    have : ({ ((p.tok [59]).spacePad.tok [125]) with wantSpace := .required } : P).abs = (p.tok [59]).spacePad.abs.wrote [125] := by
+      simp [P.abs, outB, P.tok, render_snoc, Piece.bytes, Abs.wrote]
+    rw [this, abs_spacePad_eq, Abs.pad_wrote, abs_tok]
+    have hl : leadA ({ p.abs with out := p.abs.out ++ [59] } : Abs) = [32] := leadA_of_req hws
+    rw [hl]
+    simp [Abs.wrote, List.append_assoc]
+
+theorem stmtSep_true_sl (p : P) (h : SLa p.abs) (l : Nat) : p.stmtSep true l = p.advanceLine l := by
+  unfold P.stmtSep
+  simp [h.newlines]
+
+theorem abs_stmtSep_false (p : P) (h : SLa p.abs) (hws : p.abs.ws = .required) (hwn : p.wantNewline = true) (l : Nat) :
+    (p.stmtSep false l).abs = p.abs.wrote (if p.wroteSemi then [] else [59]) := by
+  have h3 : p.o.singleLine = true := h.sl
+  unfold P.stmtSep
+  cases hsemi : p.wroteSemi with
+  | true =>
+    simp only [h3, hwn, Bool.not_true, Bool.and_false, Bool.false_eq_true, ↓reduceIte, h.newlines, ite_self]
+    rw [Abs.wrote_nil hws]
+    rfl
+  | false =>
+    simp only [h3, hwn, Bool.not_false, Bool.and_self, ↓reduceIte]
+    have hq : SLa ({ (p.tok [59]) with wantSpace := .required } : P).abs := ⟨h.sl, h.mn, h.must, h.first⟩
+    simp only [hq.newlines, ite_self]
+    simp [P.abs, outB, P.tok, P.advanceLine, render_snoc, Piece.bytes, Abs.wrote]
+
+theorem abs_stmtListWith (q : P) (ss : Stmts) (loop : P → P) :
+    (q.stmtListWith ss loop).abs = (loop q).abs ∧ (q.stmtListWith ss loop).wroteSemi = (loop q).wroteSemi := by
+  unfold P.stmtListWith
+  dsimp only
+  (repeat' split) <;> exact ⟨rfl, rfl⟩
+
+/-- `nestedStmts` around a loop that only writes -/
+theorem abs_nested (p : P) (ss : Stmts) (closing : Pos) (loop : P → P) (bs : P → Bytes)
+    (hloop : ∀ q : P, q.abs = { p.abs with incs := p.abs.incs + 1 } → (loop q).abs = q.abs.wrote (bs q)) :
+    ∃ q : P, q.abs = { p.abs with incs := p.abs.incs + 1 } ∧
+      (p.nestedStmtsWith ss closing loop).abs = p.abs.wrote (bs q) ∧
+      (p.nestedStmtsWith ss closing loop).wroteSemi = (loop q).wroteSemi := by
+  unfold P.nestedStmtsWith
+  dsimp only
+  obtain ⟨q, hq, hqa⟩ : ∃ q : P, q = (if ss.length > 1 then ({ p.incLevel with wantNewline := true } : P)
+      else if (decide (closing.line > p.incLevel.line) && decide (ss.length > 0) && decide (ss.endLine < closing.line)) = true
+        then { p.incLevel with wantNewline := true } else p.incLevel) ∧ q.abs = { p.abs with incs := p.abs.incs + 1 } := by
+    refine ⟨_, rfl, ?_⟩
+    split
+    · exact abs_incLevel p
+    · split
+      · exact abs_incLevel p
+      · exact abs_incLevel p
+  rw [← hq]
+  obtain ⟨l1, l2⟩ := abs_stmtListWith q ss loop
+  refine ⟨q, hqa, ?_, ?_⟩
+  · rw [abs_decLevel _ p.abs.incs (by rw [l1, hloop q hqa, hqa]; rfl), l1, hloop q hqa, hqa]
+    rfl
+  · rw [← l2]
+    unfold P.decLevel
+    split <;> rfl
+
+/-! ## The norm determines what the printer asks about the shape -/
+
+mutual
+theorem Stmt.startsLp_norm : ∀ s : Stmt, s.norm.startsLp = s.startsWithLparen
+  | .mk _ _ _ _ c => by
+    simp only [Stmt.norm, NStmt.startsLp, Stmt.startsWithLparen]
+    exact Cmd.startsLp_norm c
+theorem Cmd.startsLp_norm : ∀ c : Cmd, c.norm.startsLp = c.startsWithLparen
+  | .call _ => rfl
+  | .subshell _ _ _ => rfl
+  | .block _ _ _ => rfl
+  | .binary _ _ x _ => by
+    simp only [Cmd.norm, NCmd.startsLp, Cmd.startsWithLparen]
+    exact Stmt.startsLp_norm x
+end
+
+mutual
+theorem Stmt.endsRp_norm : ∀ s : Stmt, s.norm.endsRp = s.endsWithRparen
+  | .mk _ _ _ bg c => by
+    simp only [Stmt.norm, NStmt.endsRp, Stmt.endsWithRparen]
+    rw [Cmd.endsRp_norm c]
+theorem Cmd.endsRp_norm : ∀ c : Cmd, c.norm.endsRp = c.endsWithRparen
+  | .call _ => rfl
+  | .subshell _ _ _ => rfl
+  | .block _ _ _ => rfl
+  | .binary _ _ _ y => by
+    simp only [Cmd.norm, NCmd.endsRp, Cmd.endsWithRparen]
+    exact Stmt.endsRp_norm y
+end
+
+theorem Abs.lead_pad (a : Abs) : leadA a.pad = [] := by
+  unfold Abs.pad
+  split
+  · simp [leadA]
+  · rename_i h; exact leadA_of_ne h
+
+theorem Abs.pad_sla {a : Abs} (h : SLa a) : SLa a.pad := by
+  unfold Abs.pad
+  split
+  · exact ⟨h.sl, h.mn, h.must, h.first⟩
+  · exact h
+
+theorem binaryEnd_ff (q : P) : q.binaryEnd false false = q := by
+  unfold P.binaryEnd
+  simp
+
+/-! ## The printer under SingleLine computes `sl` of the norm -/
+
+mutual
+theorem sl_stmt : ∀ (s : Stmt), s.norm.ok = true → ∀ (p : P), SLa p.abs →
+    (p.stmt s).abs = p.abs.wrote (leadA p.abs ++ s.norm.sl) ∧ (p.stmt s).wroteSemi = s.norm.bg
+  | .mk pos semi neg bg cmd, hok, p, h => by
+    have hcok : cmd.norm.ok = true := by simpa [Stmt.norm, NStmt.ok] using hok
+    unfold P.stmt
+    have hpre := abs_stmtPre p neg
+    have hsl1 : SLa (p.stmtPre neg).abs := by
+      rw [hpre]
+      split
+      · exact Abs.wrote_sla h _
+      · exact h
+    have hc := sl_cmd cmd hcok (p.stmtPre neg) hsl1
+    have hsl2 : SLa ((p.stmtPre neg).command cmd).abs := by rw [hc]; exact Abs.wrote_sla hsl1 _
+    have hws2 : ((p.stmtPre neg).command cmd).abs.ws = .required := by rw [hc]; rfl
+    obtain ⟨e1, e2⟩ := abs_stmtEnd _ hsl2 hws2 semi bg
+    refine ⟨?_, by rw [e2]; simp [Stmt.norm, NStmt.bg]⟩
+    rw [e1, hc, hpre]
+    cases neg <;> cases bg <;>
+      simp [Stmt.norm, NStmt.sl, Abs.wrote_wrote, Abs.lead_wrote, List.append_assoc]
+theorem sl_cmd : ∀ (c : Cmd), c.norm.ok = true → ∀ (p : P), SLa p.abs →
+    (p.command c).abs = p.abs.wrote (leadA p.abs ++ c.norm.sl)
+  | .call args, hok, p, h => by
+    simp only [Cmd.norm, NCmd.ok, Bool.and_eq_true, Bool.not_eq_true', List.isEmpty_eq_false_iff, List.all_eq_true,
+      List.mem_map, forall_exists_index, and_imp, forall_apply_eq_imp_iff₂, ne_eq, List.map_eq_nil_iff] at hok
+    obtain ⟨hane, hall⟩ := hok
+    have hparts : ∀ w ∈ args, w.parts ≠ [] := by
+      intro w hw
+      have := hall w hw
+      simp only [nwordOk, Bool.and_eq_true, Bool.not_eq_true', List.isEmpty_eq_false_iff] at this
+      exact normParts_ne_nil this.1
+    have hbytes : ∀ w ∈ args, wordBytes w.parts = nwordBytes w.norm := by
+      intro w hw
+      have := hall w hw
+      simp only [nwordOk, Bool.and_eq_true] at this
+      exact wordBytes_norm w.parts this.2
+    cases args with
+    | nil => exact absurd rfl hane
+    | cons w rest =>
+      obtain ⟨pos, hpos⟩ : ∃ pos, w.pos? = some pos := by
+        unfold Word.pos?
+        cases hp : w.parts with
+        | nil => exact absurd hp (hparts w (by simp))
+        | cons a r => exact ⟨a.pos, by simp⟩
+      unfold P.command
+      simp only [hpos]
+      -- the state before the words
+      obtain ⟨q, hq, hqa⟩ : ∃ q : P, q = (p.advanceLine pos.line).spacePad.incLevel.decLevel ∧ q.abs = p.abs.pad := by
+        refine ⟨_, rfl, ?_⟩
+        have h1 : (p.advanceLine pos.line).spacePad.abs = p.abs.pad := abs_spacePad_eq (p.advanceLine pos.line)
+        have h2 := abs_incLevel (p.advanceLine pos.line).spacePad
+        rw [abs_decLevel _ (p.advanceLine pos.line).spacePad.abs.incs (by rw [h2]), h2, h1]
+      rw [← hq]
+      have hslq : SLa q.abs := by rw [hqa]; exact Abs.pad_sla h
+      have hj1 := abs_wordJoin q hslq [w] (fun x hx => by
+        simp only [List.mem_singleton] at hx
+        rw [hx]; exact hparts w (by simp)) (by simp)
+      have hw1 : (q.wordJoin [w]).abs = p.abs.wrote (leadA p.abs ++ wordBytes w.parts) := by
+        rw [hj1, hqa, Abs.lead_pad]
+        simp [joinSp, Abs.pad_wrote]
+      have hnormw : wordBytes w.parts = nwordBytes w.norm := hbytes w (by simp)
+      cases rest with
+      | nil =>
+        simp only [List.isEmpty_nil, ↓reduceIte]
+        rw [hw1, hnormw]
+        simp [Cmd.norm, NCmd.sl, joinSp]
+      | cons w2 rest2 =>
+        simp only [List.isEmpty_cons, Bool.false_eq_true, ↓reduceIte]
+        have hsl2 : SLa (q.wordJoin [w]).abs := by rw [hw1]; exact Abs.wrote_sla h _
+        have hj2 := abs_wordJoin (q.wordJoin [w]) hsl2 (w2 :: rest2) (fun x hx => hparts x (by simp [hx])) (by simp)
+        rw [hj2, hw1, Abs.lead_wrote, Abs.wrote_wrote]
+        have hmap : (w2 :: rest2).map (fun w => wordBytes w.parts) = (w2 :: rest2).map (fun w => nwordBytes w.norm) :=
+          List.map_congr_left (fun x hx => hbytes x (by simp [hx]))
+        rw [hmap, hnormw]
+        simp [Cmd.norm, NCmd.sl, joinSp, List.append_assoc, List.flatMap_cons, Function.comp_def, List.flatMap_map]
+  | .binary opPos op x y, hok, p, h => by
+    simp only [Cmd.norm, NCmd.ok, Bool.and_eq_true] at hok
+    unfold P.command
+    dsimp only
+    have h1 : (p.advanceLine x.pos.line).spacePad.abs = p.abs.pad := abs_spacePad_eq (p.advanceLine x.pos.line)
+    have hsl1 : SLa (p.advanceLine x.pos.line).spacePad.abs := by rw [h1]; exact Abs.pad_sla h
+    obtain ⟨hx, _⟩ := sl_stmt x hok.1 _ hsl1
+    have hx' : ((p.advanceLine x.pos.line).spacePad.stmt x).abs = p.abs.wrote (leadA p.abs ++ x.norm.sl) := by
+      rw [hx, h1, Abs.lead_pad]
+      simp [Abs.pad_wrote]
+    have hsl2 : SLa ((p.advanceLine x.pos.line).spacePad.stmt x).abs := by rw [hx']; exact Abs.wrote_sla h _
+    obtain ⟨hb, hb2⟩ := abs_binaryOp _ hsl2 opPos op y.pos.line y.isBinaryCmd
+    have hsl3 : SLa (((p.advanceLine x.pos.line).spacePad.stmt x).binaryOp opPos op y.pos.line y.isBinaryCmd).1.abs := by
+      rw [hb]; exact Abs.wrote_sla hsl2 _
+    obtain ⟨hy, _⟩ := sl_stmt y hok.2 _ hsl3
+    have e21 : (((p.advanceLine x.pos.line).spacePad.stmt x).binaryOp opPos op y.pos.line y.isBinaryCmd).2.1 = false := by
+      rw [hb2]
+    have e22 : (((p.advanceLine x.pos.line).spacePad.stmt x).binaryOp opPos op y.pos.line y.isBinaryCmd).2.2 = false := by
+      rw [hb2]
+    rw [e21, e22, binaryEnd_ff, hy, hb, hx']
+    simp [Cmd.norm, NCmd.sl, Abs.wrote_wrote, Abs.lead_wrote, List.append_assoc]
+  | .subshell lp rp ss, hok, p, h => by
+    cases ss with
+    | nil => simp [Cmd.norm, Stmts.norm, NCmd.ok] at hok
+    | cons s rest =>
+      simp only [Cmd.norm, Stmts.norm, NCmd.ok, NStmts.ok, Bool.true_and, Bool.and_eq_true] at hok
+      obtain ⟨hsok, hrok⟩ := hok
+      unfold P.command
+      dsimp only
+      have h1 : (p.advanceLine lp.line).spacePad.abs = p.abs.pad := abs_spacePad_eq (p.advanceLine lp.line)
+      have hsl1 : SLa (p.advanceLine lp.line).spacePad.abs := by rw [h1]; exact Abs.pad_sla h
+      have h2 := abs_subshellOpen _ hsl1 lp s rest
+      obtain ⟨q1, hq1⟩ : ∃ q1, q1 = (p.advanceLine lp.line).spacePad.subshellOpen lp (.cons s rest) := ⟨_, rfl⟩
+      rw [← hq1] at h2 ⊢
+      have hws1 : q1.abs.ws ≠ .required := by
+        rw [h2]
+        show (if s.startsWithLparen = true then WS.written else WS.notRequired) ≠ .required
+        split <;> simp
+      have hsl2 : SLa q1.abs := by rw [h2]; exact ⟨hsl1.sl, hsl1.mn, hsl1.must, hsl1.first⟩
+      -- the loop
+      have hloop : ∀ q : P, q.abs = { q1.abs with incs := q1.abs.incs + 1 } →
+          (q.stmtListLoop true (.cons s rest)).abs = q.abs.wrote ((Stmts.cons s rest).norm.sl) ∧
+          (q.stmtListLoop true (.cons s rest)).wroteSemi = (Stmts.cons s rest).norm.lastBg false := by
+        intro q hq
+        have hslq : SLa q.abs := by rw [hq]; exact ⟨hsl2.sl, hsl2.mn, hsl2.must, hsl2.first⟩
+        have hwsq : q.abs.ws ≠ .required := by rw [hq]; exact hws1
+        have hunf : q.stmtListLoop true (.cons s rest) =
+            P.stmtListLoop { ((q.stmtSep true s.pos.line).stmt s) with wantNewline := true } false rest := by
+          rw [P.stmtListLoop]
+        rw [hunf, stmtSep_true_sl q hslq]
+        obtain ⟨hs, hsw⟩ := sl_stmt s hsok (q.advanceLine s.pos.line) hslq
+        have hsl3 : SLa (({ ((q.advanceLine s.pos.line).stmt s) with wantNewline := true } : P)).abs := by
+          show SLa ((q.advanceLine s.pos.line).stmt s).abs
+          rw [hs]; exact Abs.wrote_sla hslq _
+        obtain ⟨hl, hlw⟩ := sl_loop rest hrok ({ ((q.advanceLine s.pos.line).stmt s) with wantNewline := true } : P) hsl3
+          (by show ((q.advanceLine s.pos.line).stmt s).abs.ws = .required; rw [hs]; rfl) rfl
+        have habs : (({ ((q.advanceLine s.pos.line).stmt s) with wantNewline := true } : P)).abs =
+            ((q.advanceLine s.pos.line).stmt s).abs := rfl
+        have hwse : (({ ((q.advanceLine s.pos.line).stmt s) with wantNewline := true } : P)).wroteSemi = s.norm.bg := hsw
+        constructor
+        · rw [hl, habs, hs, hwse]
+          have : (q.advanceLine s.pos.line).abs = q.abs := rfl
+          rw [this, leadA_of_ne hwsq, Abs.wrote_wrote]
+          simp [Stmts.norm, NStmts.sl]
+        · rw [hlw, hwse]
+          simp [Stmts.norm, NStmts.lastBg]
+      obtain ⟨q, hqa, hn1, _⟩ := abs_nested q1 (.cons s rest) rp (fun q => q.stmtListLoop true (.cons s rest))
+        (fun _ => (Stmts.cons s rest).norm.sl) (fun q hq => (hloop q hq).1)
+      obtain ⟨q2, hq2⟩ : ∃ q2, q2 = q1.nestedStmtsWith (.cons s rest) rp (fun q => q.stmtListLoop true (.cons s rest)) := ⟨_, rfl⟩
+      rw [← hq2] at hn1 ⊢
+      have hsl4 : SLa q2.abs := by rw [hn1]; exact Abs.wrote_sla hsl2 _
+      have h3 := abs_closingParenSpace q2 hsl4 (.cons s rest) lp.line rp.line
+      have hsl5 : SLa (q2.closingParenSpace (.cons s rest) lp.line rp.line).abs := by
+        rw [h3]; exact ⟨hsl4.sl, hsl4.mn, hsl4.must, hsl4.first⟩
+      rw [abs_rightParen _ hsl5, h3, hn1, h2, h1]
+      simp only [Abs.wrote, Abs.pad, leadA, Cmd.norm, Stmts.norm, NCmd.sl, Stmt.startsLp_norm]
+      cases rest with
+      | nil =>
+        simp only [Stmts.norm, Stmt.endsRp_norm]
+        cases p.abs.ws <;> cases s.startsWithLparen <;> cases s.endsWithRparen <;> simp [List.append_assoc]
+      | cons s2 r2 =>
+        simp only [Stmts.norm]
+        cases p.abs.ws <;> cases s.startsWithLparen <;> simp [List.append_assoc]
+  | .block lb rb ss, hok, p, h => by
+    cases ss with
+    | nil => simp [Cmd.norm, Stmts.norm, NCmd.ok] at hok
+    | cons s rest =>
+      simp only [Cmd.norm, Stmts.norm, NCmd.ok, NStmts.ok, Bool.true_and, Bool.and_eq_true] at hok
+      obtain ⟨hsok, hrok⟩ := hok
+      have h4 : p.o.minify = false := h.mn
+      unfold P.command
+      dsimp only
+      have h1 : (p.advanceLine lb.line).spacePad.abs = p.abs.pad := abs_spacePad_eq (p.advanceLine lb.line)
+      obtain ⟨q1, hq1, h2⟩ : ∃ q1 : P, q1 = { ((p.advanceLine lb.line).spacePad.tok [123]) with
+          wroteSemi := true, wantSpace := .required,
+          wantNewline := ((p.advanceLine lb.line).spacePad.tok [123]).wantNewline ||
+            ((p.advanceLine lb.line).spacePad.tok [123]).o.funcNextLine } ∧
+          q1.abs = p.abs.wrote (leadA p.abs ++ [123]) := by
+        refine ⟨_, rfl, ?_⟩
+        have : ({ ((p.advanceLine lb.line).spacePad.tok [123]) with
+            wroteSemi := true, wantSpace := .required,
+            wantNewline := ((p.advanceLine lb.line).spacePad.tok [123]).wantNewline ||
+              ((p.advanceLine lb.line).spacePad.tok [123]).o.funcNextLine } : P).abs =
+            (p.advanceLine lb.line).spacePad.abs.wrote [123] := by
+          simp [P.abs, outB, P.tok, render_snoc, Piece.bytes, Abs.wrote]
+        rw [this, h1, Abs.pad_wrote]
+      rw [← hq1]
+      have hsl2 : SLa q1.abs := by rw [h2]; exact Abs.wrote_sla h _
+      have hloop : ∀ q : P, q.abs = { q1.abs with incs := q1.abs.incs + 1 } →
+          (q.stmtListLoop true (.cons s rest)).abs = q.abs.wrote (32 :: (Stmts.cons s rest).norm.sl) ∧
+          (q.stmtListLoop true (.cons s rest)).wroteSemi = (Stmts.cons s rest).norm.lastBg false := by
+        intro q hq
+        have hslq : SLa q.abs := by rw [hq]; exact ⟨hsl2.sl, hsl2.mn, hsl2.must, hsl2.first⟩
+        have hwsq : q.abs.ws = .required := by rw [hq, h2]; rfl
+        have hunf : q.stmtListLoop true (.cons s rest) =
+            P.stmtListLoop { ((q.stmtSep true s.pos.line).stmt s) with wantNewline := true } false rest := by
+          rw [P.stmtListLoop]
+        rw [hunf, stmtSep_true_sl q hslq]
+        obtain ⟨hs, hsw⟩ := sl_stmt s hsok (q.advanceLine s.pos.line) hslq
+        have hsl3 : SLa (({ ((q.advanceLine s.pos.line).stmt s) with wantNewline := true } : P)).abs := by
+          show SLa ((q.advanceLine s.pos.line).stmt s).abs
+          rw [hs]; exact Abs.wrote_sla hslq _
+        obtain ⟨hl, hlw⟩ := sl_loop rest hrok ({ ((q.advanceLine s.pos.line).stmt s) with wantNewline := true } : P) hsl3
+          (by show ((q.advanceLine s.pos.line).stmt s).abs.ws = .required; rw [hs]; rfl) rfl
+        have habs : (({ ((q.advanceLine s.pos.line).stmt s) with wantNewline := true } : P)).abs =
+            ((q.advanceLine s.pos.line).stmt s).abs := rfl
+        have hwse : (({ ((q.advanceLine s.pos.line).stmt s) with wantNewline := true } : P)).wroteSemi = s.norm.bg := hsw
+        constructor
+        · rw [hl, habs, hs, hwse]
+          have : (q.advanceLine s.pos.line).abs = q.abs := rfl
+          rw [this, leadA_of_req hwsq, Abs.wrote_wrote]
+          simp [Stmts.norm, NStmts.sl]
+        · rw [hlw, hwse]
+          simp [Stmts.norm, NStmts.lastBg]
+      obtain ⟨q, hqa, hn1, hn2⟩ := abs_nested q1 (.cons s rest) rb (fun q => q.stmtListLoop true (.cons s rest))
+        (fun _ => 32 :: (Stmts.cons s rest).norm.sl) (fun q hq => (hloop q hq).1)
+      have hn3 := (hloop q hqa).2
+      obtain ⟨q2, hq2⟩ : ∃ q2, q2 = q1.nestedStmtsWith (.cons s rest) rb (fun q => q.stmtListLoop true (.cons s rest)) := ⟨_, rfl⟩
+      rw [← hq2] at hn1 hn2 ⊢
+      have hsl4 : SLa q2.abs := by rw [hn1]; exact Abs.wrote_sla hsl2 _
+      have hmin2 : q2.o.minify = false := hsl4.mn
+      simp only [hmin2, Bool.false_and, Bool.false_eq_true, ↓reduceIte]
+      rw [abs_semiRsrv q2 hsl4 (by rw [hn1]; rfl), hn1, h2, hn2, hn3]
+      simp only [Abs.wrote_wrote, Cmd.norm, Stmts.norm, NCmd.sl]
+      by_cases hb : NStmts.lastBg false (NStmts.cons s.norm rest.norm) = true
+      · simp [hb, List.append_assoc]
+      · simp [hb, List.append_assoc]
+theorem sl_loop : ∀ (ss : Stmts), ss.norm.ok = true → ∀ (p : P), SLa p.abs → p.abs.ws = .required → p.wantNewline = true →
+    (p.stmtListLoop false ss).abs = p.abs.wrote (ss.norm.slFrom p.wroteSemi) ∧
+      (p.stmtListLoop false ss).wroteSemi = ss.norm.lastBg p.wroteSemi
+  | .nil, _, p, _, hws, _ => by
+    unfold P.stmtListLoop
+    simp [Stmts.norm, NStmts.slFrom, NStmts.lastBg, Abs.wrote_nil hws]
+  | .cons s rest, hok, p, h, hws, hwn => by
+    simp only [Stmts.norm, NStmts.ok, Bool.and_eq_true] at hok
+    obtain ⟨hsok, hrok⟩ := hok
+    have hunf : p.stmtListLoop false (.cons s rest) =
+        P.stmtListLoop { ((p.stmtSep false s.pos.line).stmt s) with wantNewline := true } false rest := by
+      rw [P.stmtListLoop]
+    rw [hunf]
+    have hsep := abs_stmtSep_false p h hws hwn s.pos.line
+    have hsl1 : SLa (p.stmtSep false s.pos.line).abs := by rw [hsep]; exact Abs.wrote_sla h _
+    obtain ⟨hs, hsw⟩ := sl_stmt s hsok (p.stmtSep false s.pos.line) hsl1
+    have hsl3 : SLa (({ ((p.stmtSep false s.pos.line).stmt s) with wantNewline := true } : P)).abs := by
+      show SLa ((p.stmtSep false s.pos.line).stmt s).abs
+      rw [hs]; exact Abs.wrote_sla hsl1 _
+    obtain ⟨hl, hlw⟩ := sl_loop rest hrok ({ ((p.stmtSep false s.pos.line).stmt s) with wantNewline := true } : P) hsl3
+      (by show ((p.stmtSep false s.pos.line).stmt s).abs.ws = .required; rw [hs]; rfl) rfl
+    have habs : (({ ((p.stmtSep false s.pos.line).stmt s) with wantNewline := true } : P)).abs =
+        ((p.stmtSep false s.pos.line).stmt s).abs := rfl
+    have hwse : (({ ((p.stmtSep false s.pos.line).stmt s) with wantNewline := true } : P)).wroteSemi = s.norm.bg := hsw
+    constructor
+    · rw [hl, habs, hs, hwse, hsep, Abs.lead_wrote, Abs.wrote_wrote, Abs.wrote_wrote]
+      cases p.wroteSemi <;> simp [Stmts.norm, NStmts.slFrom]
+    · rw [hlw, hwse]
+      simp [Stmts.norm, NStmts.lastBg]
+end
+
+/-! ## The whole file -/
+
+/-- what SingleLine writes for a non-empty file: a function of its norm only -/
+def slFile (n : NStmts) : Bytes := n.sl ++ [10]
+
+theorem printFile_singleLine (o : Opts) (hsl : o.singleLine = true) (hmn : o.minify = false) (f : File)
+    (hok : f.norm.ok = true) (hne : f.stmts ≠ .nil) : printFile o f = .ok (slFile f.norm) := by
+  obtain ⟨ss⟩ := f
+  simp only at hne
+  cases ss with
+  | nil => exact absurd rfl hne
+  | cons s rest =>
+    simp only [File.norm, Stmts.norm, NStmts.ok, Bool.and_eq_true] at hok
+    obtain ⟨hsok, hrok⟩ := hok
+    have href : refuse o = false := by simp [refuse, hmn]
+    unfold printFile
+    simp only [href, Bool.false_eq_true, ↓reduceIte]
+    -- the state in which the first statement is printed
+    obtain ⟨q0, hq0, ha0⟩ : ∃ q0 : P, q0 = (P.init o).stmtSep true s.pos.line ∧
+        q0.abs = ⟨[], .written, o, false, false, false, 0⟩ := by
+      refine ⟨_, rfl, ?_⟩
+      unfold P.stmtSep
+      simp [P.init, hmn, P.newlines, P.advanceLine, P.abs, outB, render]
+    have hsl0 : SLa q0.abs := by rw [ha0]; exact ⟨hsl, hmn, rfl, rfl⟩
+    obtain ⟨hs, hsw⟩ := sl_stmt s hsok q0 hsl0
+    have hsl3 : SLa (({ (q0.stmt s) with wantNewline := true } : P)).abs := by
+      show SLa (q0.stmt s).abs
+      rw [hs]; exact Abs.wrote_sla hsl0 _
+    obtain ⟨hl, _⟩ := sl_loop rest hrok ({ (q0.stmt s) with wantNewline := true } : P) hsl3
+      (by show (q0.stmt s).abs.ws = .required; rw [hs]; rfl) rfl
+    have hunf : (P.init o).stmtListLoop true (.cons s rest) =
+        P.stmtListLoop { (((P.init o).stmtSep true s.pos.line).stmt s) with wantNewline := true } false rest := by
+      rw [P.stmtListLoop]
+    obtain ⟨pf, hpf⟩ : ∃ pf, pf = (P.init o).stmtList (.cons s rest) := ⟨_, rfl⟩
+    have hpfa : pf.abs = q0.abs.wrote ((NStmts.cons s.norm rest.norm).sl) := by
+      rw [hpf]
+      unfold P.stmtList
+      rw [(abs_stmtListWith _ _ _).1, hunf, ← hq0, hl]
+      have habs : (({ (q0.stmt s) with wantNewline := true } : P)).abs = (q0.stmt s).abs := rfl
+      have hwse : (({ (q0.stmt s) with wantNewline := true } : P)).wroteSemi = s.norm.bg := hsw
+      rw [habs, hs, hwse, Abs.wrote_wrote]
+      have : leadA q0.abs = [] := by rw [ha0]; rfl
+      rw [this]
+      simp [NStmts.sl]
+    rw [← hpf]
+    have hpan : pf.panicked = false := by
+      have := congrArg Abs.pan hpfa
+      rw [ha0] at this
+      exact this
+    have hout : outB pf = (NStmts.cons s.norm rest.norm).sl := by
+      have := congrArg Abs.out hpfa
+      rw [ha0] at this
+      have e : pf.abs.out = outB pf := rfl
+      rw [e] at this
+      simpa [Abs.wrote] using this
+    unfold P.finish
+    have hpan2 : (pf.newline 0).panicked = false := hpan
+    rw [hpan2]
+    simp only [Bool.false_eq_true, ↓reduceIte, Except.ok.injEq]
+    have : render (pf.newline 0).out.reverse = outB pf ++ [10] := by
+      show render (Piece.gap [10] :: pf.out).reverse = _
+      simp [outB, render_snoc, Piece.bytes]
+    rw [this, hout]
+    rfl
+
 end ShVerif.L4
